@@ -151,8 +151,14 @@ Definition cast_fn (E : env) (t : cast_ty) (v : pv) : conv pv :=
   | CTInt => cast_int v
   | CTFloat => cast_float v
   | CTComplex => cast_complex v
-  | CTStr => match v with PStr s | PStrSub s => Returns (PStr s) | _ => orc_conv E 1 v end
-  | CTBytes => match v with PBytes s => Returns (PBytes s) | _ => orc_conv E 2 v end
+  | CTStr => match v with
+             | PStr s | PStrSub s => Returns (PStr s)
+             | _ => match oracle E 1 v with Some (PStr s) => Returns (PStr s) | _ => Raises EOtherError end
+             end
+  | CTBytes => match v with
+               | PBytes s => Returns (PBytes s)
+               | _ => match oracle E 2 v with Some (PBytes s) => Returns (PBytes s) | _ => Raises EOtherError end
+               end
   | CTBool => Returns (PBool (truthy v))
   end.
 
